@@ -110,6 +110,9 @@ def cov_save():
         _COV.start()
 
 
+_DEBUG_LOGGING_ACTIVE = []      # non-empty while a debug_logging() block is open
+
+
 def import_searchkit():
     """ Import searchkit from REPO (never a copy) and return the package. """
     sys.dont_write_bytecode = True
@@ -122,9 +125,10 @@ def import_searchkit():
         raise Infra(f"searchkit imported from {searchkit.__file__}, "
                     f"not from {REPO}")
     import logging  # pylint: disable=import-outside-toplevel
-    logging.getLogger('searchkit').setLevel(logging.CRITICAL)
-    logging.getLogger('searchkit').propagate = False
-    logging.getLogger('searchkit').handlers = [logging.NullHandler()]
+    if not _DEBUG_LOGGING_ACTIVE:
+        logging.getLogger('searchkit').setLevel(logging.CRITICAL)
+        logging.getLogger('searchkit').propagate = False
+        logging.getLogger('searchkit').handlers = [logging.NullHandler()]
     return searchkit
 
 
@@ -145,9 +149,11 @@ def debug_logging(on=True):
     lg.handlers = [h]
     lg.setLevel(logging.DEBUG)
     lg.propagate = False
+    _DEBUG_LOGGING_ACTIVE.append(1)
     try:
         yield
     finally:
+        _DEBUG_LOGGING_ACTIVE.pop()
         lg.setLevel(saved[0])
         lg.handlers = saved[1]
         lg.propagate = saved[2]
